@@ -172,7 +172,7 @@ def instant_family(res, tier, rnd):
         script = [P.W("started"), P.W("idle")]
         for k in range(n):
             script += [P.DO("send", msg=P.B("exec", fast=True, cb=cb)), P.DO("sleep", us=rnd.choice([0, 0, 2000]))]
-        script += [P.DO("sleep", us=30000), P.W("idle"), P.DO("send", msg=P.U(600)), P.DO("sleep", us=80000), P.W("idle"),
+        script += [P.DO("sleep", us=80000), P.W("idle"), P.DO("send", msg=P.U(600)), P.DO("sleep", us=80000), P.W("idle"),
                    P.DO("send", msg=P.U(601)), P.W("idle"), P.DO("kill"), P.W("returned")]
         scs.append(P.scenario(i, script, opts={"fps": 120, "alt": alt}, inp={"kind": "pipe"}, parallel_ok=True, watchdog_ms=5000))
         metas.append({"alt": alt, "callback": cb, "execs": n})
@@ -187,6 +187,16 @@ def instant_family(res, tier, rnd):
         if u601 is None:
             bad.append((m, "marker missing"))
             continue
+        # (a) without any further message: what is on the screen when the next message (u:600) begins is the current view
+        u600 = next((e for e in ev if e["ev"] == "UpdateBegin" and e.get("key") == "u:600"), None)
+        ends = [e for e in ev if e["ev"] == "ExecRunEnd"]
+        if u600 is not None and ends:
+            seg = bytes(r["output"])[ends[-1]["outlen"]:u600["outlen"]]
+            if (b"view %d" % u600["ver"]) not in seg:
+                import re as _re
+                bad.append((m, "after %d external command(s) (%s, %s) and no further message the current view (view %d) was not painted again; painted since the last command: %s" %
+                            (m["execs"], "alt screen" if m["alt"] else "inline", "callback" if m["callback"] else "no callback", u600["ver"], _re.findall(rb'view \d+', seg))))
+                continue
         shown = bytes(r["output"])[:u601["outlen"]]
         want = b"view %d" % u601["ver"]
         if want not in shown:
